@@ -189,13 +189,13 @@ def make_ops(rnd, env):
 
     ops += [("query_terminal/reply", q_da1, None, None), ("query_terminal/time-out", q_noreply, None, None), ("query_terminal/predicate-raises", q_pred_raises, None, PredicateError)]
     echo = rnd.random() < 0.5
-    ops.append(("read_tty/timeout-none", lambda: utils.read_tty(echo=echo), b"ab", None))
+    ops.append(("read_tty/timeout-none", lambda: utils.read_tty(echo=echo), b"ab", None, dict(echo=echo, vmin=0)))
     ops.append(("read_tty_all", utils.read_tty_all, b"xyz", None))
-    ops.append(("read_tty/timeout-positive", lambda: utils.read_tty(lambda s: len(s) < 2, 0.2, echo=echo), b"pq", None))
+    ops.append(("read_tty/timeout-positive", lambda: utils.read_tty(lambda s: len(s) < 2, 0.2, echo=echo), b"pq", None, dict(echo=echo, vmin=0)))
     ops.append(("read_tty/timeout-expires", lambda: utils.read_tty(lambda s: True, 0.02), None, None))
     ops.append(("read_tty/timeout-negative", lambda: utils.read_tty(lambda s: len(s) < 3, -1.0, echo=echo), b"uvw", None))
     m = rnd.randint(1, 3)
-    ops.append(("read_tty/min", lambda: utils.read_tty(lambda s: False, 0.2, m, echo=echo), b"m" * m, None))
+    ops.append(("read_tty/min", lambda: utils.read_tty(lambda s: False, 0.2, m, echo=echo), b"m" * m, None, dict(echo=echo, vmin=m)))
 
     def pred_raises(s):
         if s:
@@ -243,8 +243,17 @@ def make_ops(rnd, env):
     return ops
 
 
-def random_attrs(rnd, base):
+def random_attrs(rnd, base, hint=None):
     a = [x if not isinstance(x, list) else list(x) for x in base]
+    if hint is not None and rnd.random() < 0.4:
+        # the terminal is already in (or close to) the mode the operation switches to --
+        # e.g. left in cbreak/raw mode by tty.setcbreak(), curses or urwid
+        a[3] &= ~termios.ICANON
+        a[3] = (a[3] | termios.ECHO) if hint["echo"] else (a[3] & ~termios.ECHO)
+        a[6][termios.VTIME] = 0
+        a[6][termios.VMIN] = rnd.choice([hint["vmin"], hint["vmin"], 1])
+        a[1] |= termios.OPOST | termios.ONLCR
+        return a
     lf = a[3]
     for flag in (termios.ICANON, termios.ECHO, termios.ISIG, termios.IEXTEN, termios.ECHOE, termios.ECHOK, termios.ECHONL):
         if rnd.random() < 0.5:
@@ -274,7 +283,7 @@ def exc_factory(name):
 
 
 def run_op(op, attrs, env, fault, res, sigint=False):
-    name, fn, typed, expect = op
+    name, fn, typed, expect = op[:4]
     env.flush_input()
     termios.tcsetattr(env.slave, termios.TCSANOW, attrs)
     before = termios.tcgetattr(env.slave)
@@ -331,7 +340,7 @@ def diff_attrs(b, a):
 def run_round(rnd, env, res, base):
     ops = make_ops(rnd, env)
     for op in ops:
-        attrs = random_attrs(rnd, base)
+        attrs = random_attrs(rnd, base, op[4] if len(op) > 4 else None)
         ac = attr_class(attrs)
         s, outcome, b, a = run_op(op, attrs, env, None, res)
         res.count("fault-free operations")
